@@ -48,7 +48,9 @@ pub fn scope(prop: &str, tier: &str) -> MScope {
     MScope { trees: mut_trees(prop, th), paths: mut_paths(th), thorough: th, chunk: if th { 8 } else { 6 } }
 }
 
-pub fn n_items(prop: &str, tier: &str) -> usize { let s = scope(prop, tier); (s.trees.len() + s.chunk - 1) / s.chunk }
+fn base_items(prop: &str, tier: &str) -> usize { let s = scope(prop, tier); (s.trees.len() + s.chunk - 1) / s.chunk }
+/// C14: a second pass over the same trees for the rename operations on a kernel without renameat2(2) (seccomp ENOSYS)
+pub fn n_items(prop: &str, tier: &str) -> usize { let n = base_items(prop, tier); if prop == "C14" { 2 * n } else { n } }
 
 /// operations of one property for one path
 fn ops_for(prop: &str, path: &str, th: bool) -> Vec<Op> {
@@ -58,6 +60,11 @@ fn ops_for(prop: &str, path: &str, th: bool) -> Vec<Op> {
         v.push(r("create").itype("file").mode(0o644));
         v.push(r("create").itype("dir").mode(0o750));
         v.push(r("create").itype("fifo").mode(0o600));
+        // set-id and sticky bits are part of the mode the *at call gets
+        v.push(r("create").itype("file").mode(0o4750));
+        v.push(r("create").itype("dir").mode(0o3775));
+        v.push(Op::new("mknod").capi().root(ROOT_IN).path(path).mode(libc::S_IFREG | 0o6755));
+        v.push(Op::new("mkdir").capi().root(ROOT_IN).path(path).mode(0o1777));
         // Permissions values that carry file-type bits (what fs::metadata().permissions() yields): only the permission bits count
         v.push(r("create").itype("file").mode(libc::S_IFSOCK | 0o640));
         v.push(r("create").itype("dir").mode(libc::S_IFREG | 0o711));
@@ -106,7 +113,8 @@ fn ops_for(prop: &str, path: &str, th: bool) -> Vec<Op> {
         }
     };
     let mk = |v: &mut Vec<Op>| {
-        for m in [0o755u32, 0o700, 0o1777] { v.push(r("mkdir_all").mode(m)); }
+        // 0555: no owner-write - every created directory, not only the last, must get exactly the requested mode
+        for m in [0o755u32, 0o700, 0o1777, 0o555] { v.push(r("mkdir_all").mode(m)); }
         v.push(r("mkdir_all").mode(0o755).rflags(RESOLVE_NO_SYMLINKS));
         if th { for m in [0o000u32, 0o2755, 0o4755, 0o10755, 0o777] { v.push(r("mkdir_all").mode(m)); } v.push(Op::new("mkdir_all").capi().root(ROOT_IN).path(path).mode(0o750)); }
     };
@@ -288,13 +296,20 @@ pub fn run_item(prop: &str, tier: &str, idx: usize, only: Option<&Value>) -> MRe
     enter_jail()?;
     build_decoys()?;
     let umask = 0o022u32;
-    let mut k = Wk::spawn("K", &Setup { jail: JAIL.into(), umask: Some(umask), ..Default::default() })?;
-    let mut e = Wk::spawn("E", &Setup { jail: JAIL.into(), deny: vec!["openat2".into()], umask: Some(umask), ..Default::default() })?;
+    let nbase = base_items(prop, tier);
+    let norenameat2 = idx >= nbase;
+    let item_idx = idx;
+    let idx = idx % nbase;
+    let (kn, en) = if norenameat2 { ("K-norenameat2", "E-norenameat2") } else { ("K", "E") };
+    let extra: Vec<String> = if norenameat2 { vec!["renameat2".into()] } else { vec![] };
+    let mut k = Wk::spawn(kn, &Setup { jail: JAIL.into(), deny: extra.clone(), umask: Some(umask), ..Default::default() })?;
+    let mut e = Wk::spawn(en, &Setup { jail: JAIL.into(), deny: [vec!["openat2".to_string()], extra].concat(), umask: Some(umask), ..Default::default() })?;
     k.timeout_ms = 60_000; e.timeout_ms = 60_000;
     let root_out = out(ROOT_IN);
     let rootfd = open_path(&root_out)?;
     let (lo, hi) = (idx * sc.chunk, ((idx + 1) * sc.chunk).min(sc.trees.len()));
     let mut states: std::collections::BTreeSet<u64> = Default::default();
+    let root_id = lstat(&out(ROOT_IN)).map(|st| (st.dev, st.ino)).ok_or_else(|| Mach("root directory missing at item start".into()))?;
     for ti in lo..hi {
         let tree = &sc.trees[ti];
         if let Some(o) = only { if o["tree_idx"].as_u64() != Some(ti as u64) { continue; } }
@@ -305,7 +320,8 @@ pub fn run_item(prop: &str, tier: &str, idx: usize, only: Option<&Value>) -> MRe
         for path in &sc.paths {
             for op in ops_for(prop, path, sc.thorough) {
                 if let Some(o) = only { let want: Op = serde_json::from_value(o["op"].clone()).map_err(|e| Mach(format!("bad replay op: {}", e)))?; if want != op { continue; } }
-                let replay = json!({"engine": "mutmc", "item": idx, "tree_idx": ti, "tree": tree.text(), "op": op});
+                if norenameat2 && op.name != "rename" { continue; }
+                let replay = json!({"engine": "mutmc", "item": item_idx, "tree_idx": ti, "tree": tree.text(), "op": op});
                 // --- K
                 rebuild(tree)?;
                 let mut ok_ = k.one(op.clone().keep("r"))?;
@@ -326,12 +342,21 @@ pub fn run_item(prop: &str, tier: &str, idx: usize, only: Option<&Value>) -> MRe
                     continue;
                 }
                 let sk = snap_all()?;
+                // an operation that wipes out the root directory itself (or its parent's contents) leaves nothing to continue on:
+                // report it and end this item here (the world is rebuilt by the next item's process)
+                let root_gone = |who: &str, res: &mut ItemResult| -> bool {
+                    let alive = lstat(&out(ROOT_IN)).map(|st| (st.dev, st.ino) == root_id).unwrap_or(false);
+                    if !alive { res.violate(format!("{}:{}:root-destroyed", who, op.name), format!("tree [{}] {} on {}: the root directory itself no longer exists afterwards (the operation acted on the root's parent)", tree.text(), op.brief(), who), replay.clone()); }
+                    !alive
+                };
+                if root_gone(kn, &mut res) { return Ok(res); }
                 let kpath = id_path(&sk, &ok_.fd);
                 k.one(Op::new("close_handle").handle("r"))?;
                 // --- E
                 rebuild(tree)?;
                 let oe = e.one(op.clone().keep("r"))?;
                 let se = snap_all()?;
+                if root_gone(en, &mut res) { return Ok(res); }
                 let epath = id_path(&se, &oe.fd);
                 e.one(Op::new("close_handle").handle("r"))?;
                 let (ck, ce) = (canon(&sk), canon(&se));
@@ -343,7 +368,7 @@ pub fn run_item(prop: &str, tier: &str, idx: usize, only: Option<&Value>) -> MRe
                 let changed = ck != c0;
                 if changed || !ok_.ok { res.nontrivial += 1; }
                 let desc0 = format!("tree [{}] {}", tree.text(), op.brief());
-                for (bk, o) in [("K", &ok_), ("E", &oe)] {
+                for (bk, o) in [(kn, &ok_), (en, &oe)] {
                     if let Some(p) = &o.panic { res.violate(format!("{}:panic:{}", bk, op.name), format!("{} on {}: panic {}", desc0, bk, p), replay.clone()); }
                 }
                 if prop == "C04" {
@@ -368,9 +393,12 @@ pub fn run_item(prop: &str, tier: &str, idx: usize, only: Option<&Value>) -> MRe
                 let co = canon(&so);
                 let want_path = want_id.and_then(|id| so.iter().find(|(_, n)| (n.dev, n.ino) == id).map(|(p, _)| p.clone()));
                 res.traces_validated += 1;
-                for (bk, o, c, hp) in [("K", &ok_, &ck, &kpath), ("E", &oe, &ce, &epath)] {
+                for (bk, o, c, hp) in [(kn, &ok_, &ck, &kpath), (en, &oe, &ce, &epath)] {
                     if o.panic.is_some() { continue; }
                     let got = if o.ok { 0 } else { o.errno.unwrap_or(-1) };
+                    // without renameat2(2) a flagged rename cannot be done atomically: refusing it with ENOSYS and leaving the
+                    // tree alone is the only acceptable alternative to the reference effect
+                    if norenameat2 && got == libc::ENOSYS && *c == c0 { res.count("refused_without_renameat2", 1); continue; }
                     let mismatch = match &exp {
                         Expect::Errno(w) => *w != got,
                         Expect::Fails => o.ok,
@@ -402,7 +430,7 @@ pub fn run_item(prop: &str, tier: &str, idx: usize, only: Option<&Value>) -> MRe
                         let (p, n) = split_final(op.path.as_deref().unwrap_or("")).unwrap_or((".".into(), String::new()));
                         let _ = (p, n);
                         let fd = o.fd.as_ref();
-                        let snap = if bk == "K" { &sk } else { &se };
+                        let snap = if bk == kn { &sk } else { &se };
                         let there = fd.and_then(|f| snap.iter().find(|(_, nn)| nn.dev == f.dev && nn.ino == f.ino));
                         if there.is_none() { res.violate(format!("{}:create_file:identity", bk), format!("{} on {}: returned descriptor is not an object of the tree", desc0, bk), replay.clone()); }
                     }
